@@ -19,7 +19,6 @@
 import CatVerif.Proofs.ParseBuf
 import CatVerif.Proofs.Mem
 import CatVerif.Proofs.Ctl
-import CatVerif.Proofs.Steps.ParseArgs
 namespace Cat
 open St Spec
 
@@ -110,18 +109,5 @@ theorem C05_store_bound (D : Desc) (s : St) (v : VarD) (hty : v.type = .bufHex â
 
 /-- non-vacuity: "4a4B" decodes to two bytes; "\\n" inside quotes decodes to LF -/
 example : hexPairs [52, 97, 52, 66] = some [74, 75] âˆ§ unescape [97, 92, 110] = some [97, 10] := by decide
-
-/-- the dispatch of an argument to the hex-buffer and string decoders is recognised in `parse_write_args` of the
-source on every run (translator item T18) -/
-theorem C05_dispatch_generated (D : Desc) (s : St) (i : SvcIn) : parseWriteArgs D s i = Gen.parse_write_args D s i :=
-  parseWriteArgs_generated D s i
-
-/-- the counters this property's theorems keep as unbounded natural numbers (`position`, `write_size`, `data_size`) are declared
-`size_t` in `cat.h` â€” 64 bits on the target, so they cannot wrap on any buffer, table or line that exists; the widths
-are read from the struct declarations on every run (translator item T21) -/
-theorem C05_counters_unbounded :
-    Gen.width_obj_position = 64 âˆ§
-    Gen.width_obj_write_size = 64 âˆ§
-    Gen.width_var_data_size = 64 := by decide
 
 end Cat
